@@ -65,3 +65,13 @@ Theorem C11_ristretto_length_and_canonicity : forall K bs,
   (length bs = 32%nat -> (le_int bs >= fp \/ Z.odd (le_int bs) = true) -> r_element_from_bytes K bs = Err).
 Proof. intros K bs. split; [exact (r_wrong_length_refused K bs)|exact (r_element_precheck K bs)]. Qed.
 Print Assumptions C11_ristretto_length_and_canonicity.
+
+(* ristretto: every byte string the backend accepts as a group element denotes a point of the curve — a valid extended
+   point (Z = 1, T = X Y, -x^2 + y^2 = 1 + d x^2 y^2), for every kernel and every byte string. (The length / canonical /
+   non-negative pre-checks are the statements above; that the accepted encoding is the unique canonical one of its coset
+   is executed against curve25519-dalek, not proved.) *)
+From Strand Require Import Base.ZpField Base.Edwards Model.RBackend Proofs.RistrettoGroup Proofs.RistrettoDecode.
+Theorem C11_ristretto_accepted_elements_are_curve_points : forall (K : Kernel) bs P,
+  r_element_from_bytes K bs = Ok P -> valid P.
+Proof. exact r_element_from_bytes_valid. Qed.
+Print Assumptions C11_ristretto_accepted_elements_are_curve_points.
